@@ -60,6 +60,7 @@ def run(tier, seed):
     r = vlib.rng_for(seed, PID)
     nworlds = 90 if tier == "quick" else 900
     obs = []
+    hidden_worlds = 0
     with vlib.Scratch() as sc:
         for i in range(nworlds):
             src_spec, dst_spec, d, n, t = gen_world(r)
@@ -69,6 +70,16 @@ def run(tier, seed):
             world.mk_tree(dst, dst_spec)
             if not src_spec:
                 os.makedirs(src, exist_ok=True)
+            if i % 7 == 3:
+                # (seed C07-4) entries the scanner hides (a .git directory): neither planned for deletion nor part of "the destination's
+                # entries" the share is taken of -- numerator and denominator must come from the same scan
+                os.makedirs(dst + "/.git/objects", exist_ok=True)
+                if d * 100 > n:
+                    t = max(1, (100 * d) // n - 1 - (1 if (100 * d) % n == 0 else 0))      # just below the exact share: refused ...
+                for q in range(4 * n + r.randrange(8, 30)):                               # ... unless the hidden entries were counted
+                    with open(dst + "/.git/objects/o%d" % q, "w") as fh:
+                        fh.write("object %d" % q)
+                hidden_worlds += 1
             force = (i % 11 == 10)
             before = world.snapshot(dst)
             args = [src, dst, "--delete", "--delete-threshold=%d" % t] + (["--force-delete"] if force else []) + (["-j1"] if i % 3 == 0 else [])
@@ -101,6 +112,7 @@ def run(tier, seed):
     res.cov["evaluations"] = len(obs) + len(sweep)
     res.cov["distinct_nontrivial"] = len(nontriv)
     res.cov["worlds"] = len(obs)
+    res.cov["worlds_with_scanner_hidden_destination_entries"] = hidden_worlds
     res.cov["refusals_observed"] = sum(1 for o in obs if o["refused"])
     res.cov["model_sweep_triples"] = len(sweep)
     res.cov["model_sweep_float_differs_from_exact"] = float_vs_exact
